@@ -18,15 +18,16 @@ CVC5_TIMEOUT_S = int(os.environ.get("PYVC_CVC5_S", "30"))
 CVC5 = "/usr/bin/cvc5"
 
 
-def to_smt2(assumptions, goal, expect_sat=False, qf=True, watch=None):
+def to_smt2(assumptions, goal, expect_sat=False, qf=True, watch=None, rounds=None):
     """SMT-LIB text of `assumptions and not goal` (or `and goal` for covers), made quantifier-free (pyvc.quant)."""
     from .quant import make_qf
     asserts = list(assumptions) + [goal if expect_sat else z3.Not(goal)]
+    gi = len(asserts) - 1
     for k, t in (watch or {}).items():
         asserts.append(z3.Const(f"watch!{k}", t.sort()) == t)   # definitional: does not change satisfiability
     stats = {}
     if qf:
-        asserts, stats = make_qf(asserts)
+        asserts, stats = make_qf(asserts, goal_index=gi, rounds=rounds)
     s = z3.Solver()
     for a in asserts:
         s.add(a)
@@ -174,6 +175,18 @@ def _work(i):
         job["seed"] = int(os.environ.get("VERIF_SEED", "0") or 0) % 1000
         gen_s = time.time() - t0
         r = decide(job)
+        if r["verdict"] == "sat" and stats.get("quantified") and not o.expect_sat:
+            # a model of the instantiated query is only a candidate: refine with more instantiation rounds
+            smt2b, statsb = to_smt2(o.pc, o.goal, o.expect_sat, watch=o.watch, rounds=5)
+            rb = decide(dict(job, smt2=smt2b))
+            rb["time_s"] += r["time_s"]
+            if rb["verdict"] == "unsat":
+                rb["backend"] += "+refined"
+                r, stats, smt2 = rb, statsb, smt2b
+            elif rb["verdict"] == "sat":
+                r, stats, smt2 = rb, statsb, smt2b
+            else:
+                r["detail"] = "refinement with more instances was undecided: " + rb.get("detail", "")
         r["gen_s"] = gen_s
         r["qstats"] = stats
         r["size"] = len(smt2)
